@@ -237,11 +237,12 @@ def run(pid: str, tier: str, seed: int, *, replay: dict | None = None) -> int:
             # the implementation-shaped specification of the Redis broker's whole life cycle: invariants, NeverEarly, and -- repair
             # bccc295 -- ReturnKeepsDue (a message that comes back from flight into the delayed set comes back under the score it
             # had); with the pinned reject() TLC finds the recurring message that is put off by a period
-            for cfg4 in (["MC_BrokerRedisLife_quick.cfg"] if tier == "quick" else ["MC_BrokerRedisLife_mid.cfg", "MC_BrokerRedisLife_nx.cfg"]):
+            for cfg4 in (["MC_BrokerRedisLife_quick.cfg"] if tier == "quick" else ["MC_BrokerRedisLife_mid.cfg", "MC_BrokerRedisLife_nx.cfg", "MC_BrokerRedisLife_refine.cfg"]):
                 r4 = tlc.run_tlc("MC_BrokerRedisLife", cfg4, timeout=3000)
                 if not r4.ok:
                     ck.model_violation(r4, "BrokerRedisLife")
-                ck.add_tlc(r4, f"BrokerRedisLife, {cfg4}: Conservation, MarkedIffInFlight, HeldIsInFlight, DueRemembered, ReturnKeepsDue, NotBeforeTimeout, NeverEarly")
+                ck.add_tlc(r4, f"BrokerRedisLife, {cfg4}: Conservation, MarkedIffInFlight, HeldIsInFlight, DueRemembered, ReturnKeepsDue, NotBeforeTimeout, NeverEarly"
+                               + ("; refinement BrokerRedisLife => BrokerAbs (without the fifo and ttl clauses: the recorded findings of this broker)" if "refine" in cfg4 else ""))
             rp4 = tlc.run_tlc("MC_BrokerRedisLife", "MC_BrokerRedisLife_pinned.cfg", timeout=3000)
             if rp4.ok or rp4.violated != "ReturnKeepsDue":
                 raise tlc.MachineryError(f"BrokerRedisLife (pinned reject): expected ReturnKeepsDue to fail, got {rp4.violated}")
